@@ -135,9 +135,9 @@ CHECKS["C09"] = {
             "over them. LearnerND / IntegratorLearner (utils.restore snapshot): the roll-back half is proved on the models of C04 / C07 "
             "(state as given, also when the request raises; same points and error class as the committing ask), the committing half "
             "is left to the twin oracle (listed as partial). Learner2D: bookkeeping model L2D.lean (data, pending, suggestion stack; candidates of _fill_stack as oracle) "
-            "in bit-exact lock-step with the real class: ask never changes data; ask(n, False) returns the committing answer, leaves pending unchanged when the geometry "
-            "proposes no pending point (CandsFresh; counterexample otherwise = recorded finding) and rewrites the stack exactly as characterised (the recorded stack finding, "
-            "now a theorem with kernel-checked witnesses). Search: twin learners over 22 kinds, one "
+            "in bit-exact lock-step with the real class: ask never changes data; ask(n, False) returns the committing answer, leaves pending EXACTLY unchanged for "
+            "every oracle (since the repair e806eb2), is a complete no-op when it fails (state equality; repair 844d031) and rewrites the stack exactly as "
+            "characterised (the recorded stack finding, now a theorem with kernel-checked witnesses). Search: twin learners over 22 kinds, one "
             "receiving extra non-committing asks twice (incl. requests that cannot be served and raise, and requests larger than "
             "Learner2D's suggestion stack); every observable and every later answer compared exactly. The recorded Learner2D stack "
             "mechanism is recognised exactly (stack after the call = the candidates a committing ask of a deep copy produces, not "
@@ -158,8 +158,8 @@ CHECKS["C10"] = {
             "code the kernel-checked counterexample stands next to the theorem, which then carries the explicit hypothesis. Learner2D "
             "(L2D.lean: data, pending set, suggestion stack; the candidates of _fill_stack as oracle; bit-exact lock-step with the real class "
             "in this check): data = the value told last, npoints = distinct told points, an in-bounds told point leaves pending and stack, "
-            "points of a committing ask are pending afterwards and (when the geometry proposes no pending/evaluated point) until told or "
-            "discarded, remove_unfinished empties pending and re-queues the unevaluated corners. Search: shadow bookkeeping over 21 learner kinds incl. wrappers, retries (re-marked told points), abscissae "
+            "points of a committing ask are pending afterwards and until told or discarded (no hypothesis on the geometry since the repairs "
+            "e806eb2 / 844d031), remove_unfinished empties pending and re-queues the unevaluated corners. Search: shadow bookkeeping over 21 learner kinds incl. wrappers, retries (re-marked told points), abscissae "
             "of the integrator told before they were handed out.",
     "design_ref": "DESIGN.md section 6 C10",
     "note": "Trusted: Lean kernel, standard axioms; models tied to the code by the lock-step checks C01/C02/C04/C07/C15/C16/C17/C18. "
